@@ -12,6 +12,7 @@ use crate::gen::Published;
 
 pub mod server;
 pub mod rrdp;
+pub mod tls;
 
 static INIT: Once = Once::new();
 
